@@ -33,11 +33,37 @@
        flags, shrunk variables at a bound, edge gradient, permutation, per-variable data travelling with the
        variable), never decreases the objective, preserves sum(alpha) for the equality-constrained problem and
        leaves every variable outside the working sets unchanged.
+     * (extension, C08Reshrink.v / C08ReshrinkProofs.v) the composite inside shrink() - unshrink(); recompute largestUp /
+       smallestDown over ALL variables; run the shrink loop again - removes only variables that cannot improve the
+       objective in the state after the unshrink: each removed position carries the row (original index, alpha, gradient,
+       box, flags) of a variable of the un-shrunk state that sits at a bound and has no feasible first-order ascent
+       direction, with the maintained AND with the true gradient lin - K alpha (C08_reshrink_removes_only_unimprovable,
+       C08_shrink_unshrink_branch_sound, C08_shrink_loop_removes_only_tested); a step of any length along such a pair does
+       not raise the objective when the curvature along it is non-negative (C08_removed_pair_step_no_gain).
+       C08_reshrink_stale_refuted: WITHOUT the recomputation (seeded change C08-5) a concrete consistent state exists where
+       the composite removes a variable that can improve the objective by 1/4, and the as-coded composite keeps it.
+     * (extension, C08Mutators.v / C08MutatorsProofs.v) the public mutators a caller may use between two solves of the
+       same object keep the state invariant Inv_core incl. the edge-gradient relation: setLinear (C08_setLinear_preserves_inv,
+       and the linear term seen through the ORIGINAL index changes for exactly that variable: C08_setLinear_data),
+       activateVariable, flipCoordinates, scaleBoxConstraints (equal factors; different factors under the stated
+       preconditions), setInitialSolution(alpha) on an object with identity permutation; hence every history interleaving
+       updateSMO / shrink / unshrink with mutator calls keeps Inv_core (C08_every_history_with_mutators; between two
+       mutator calls the solver segment is a history of C08_every_history: C08_history_solver_segment).
+       Refuted variants: C08_setLinear_read_after_write_refuted (seeded change C08-6 breaks Inv_edge),
+       C08_setInitialSolution_permuted_refuted (LATENT DEFECT of /repo: setInitialSolution(alpha) on an object whose
+       variables were permuted by an earlier solve indexes matrix rows by position but alpha by original index).
+   NOT modelled: setShrinking (m_shrink is a parameter of the model; setShrinking(true) after steps taken with m_shrink =
+   false leaves the edge gradient stale - latent defect of /repo, see tools/c08.py LATENT_KEYS), the three-argument
+   setInitialSolution, deactivateVariable of the shrinking strategy (the member does not compile).
    COMPARED / MONITORED on every run (tools/c08.py), not proved: the float instantiation of the same
-   model agrees with the real solver step by step; invariants re-evaluated on the implementation's
-   snapshots with an independent kernel matrix; float drift. *)
+   model (step, mstep, reshrink) agrees with the real solver step by step, on the mutator calls of the object-history
+   stream and on every shrink event of the long stream; invariants re-evaluated on the implementation's
+   snapshots with an independent kernel matrix; SHRINK-EVENT MONITOR (every variable removed by a shrink() call is at a
+   bound and has no feasible first-order ascent direction w.r.t. the true gradient and the KKT bounds of the variables
+   the decision was taken on); reused object vs fresh object built from the modified data; float drift. *)
 From Coq Require Import QArith List.
 From SharkV Require Import C08Model C08Defs C08Aux C07Proofs C08Proofs C08ProofsBox C08ProofsBoxStep C08ProofsShrink C08ProofsEdge C08ProofsFlip C08ProofsHist.
+From SharkV Require Import C08Reshrink C08ReshrinkProofs C08Mutators C08MutatorsProofs.
 Import ListNotations.
 Open Scope Q_scope.
 
@@ -234,3 +260,155 @@ Theorem C08_every_history_core :
   frozen shr s s'.
 Proof. exact run_core. Qed.
 Print Assumptions C08_every_history_core.
+
+(* ======================= extension: the un-shrink-and-re-shrink composite of shrink() ======================= *)
+
+(* what the shrink loop removes: every position behind the new active-set size holds the row of a variable that was
+   already shrunk or of one (among the visited positions) for which testShrinkVariable fired with the given bounds *)
+Theorem C08_shrink_loop_removes_only_tested :
+  forall (n : nat) (kind : bool) (lu sd : Q) (a : nat) (s : qst),
+  (a <= active s)%nat -> (active s <= n)%nat ->
+  let s' := shrink_loop qops kind lu sd a s in
+  forall p : nat, (active s' <= p < n)%nat ->
+  (exists b : nat, (active s <= b < n)%nat /\ row s' p = row s b) \/
+  (exists b : nat, (b < a)%nat /\ test_shrink qops kind s b lu sd = true /\ row s' p = row s b).
+Proof. exact shrink_loop_removed. Qed.
+Print Assumptions C08_shrink_loop_removes_only_tested.
+
+(* unshrink(); getMaxKKTViolations(.., dimensions()); shrink loop: every removed variable cannot improve the objective
+   w.r.t. the state AFTER the unshrink (recomputed bounds), with the maintained and with the true gradient *)
+Theorem C08_reshrink_removes_only_unimprovable :
+  forall (n : nat) (K0 : nat -> nat -> Q), Ksym K0 ->
+  forall (kind : bool) (s : qst), Inv_core n K0 true s ->
+  let u := unshrink qops n K0 s in
+  let s' := reshrink qops n K0 kind s in
+  Inv_core n K0 true u /\ Inv_grad_all n K0 u /\ active u = n /\
+  Inv_core n K0 true s' /\ same_vars n K0 s s' /\
+  (forall p : nat, (active s' <= p < n)%nat ->
+   exists b : nat, (b < n)%nat /\ row s' p = row u b /\
+     cannot_improve_with n (grad u) kind u b /\ cannot_improve_with n (true_grad n K0 u) kind u b).
+Proof. exact reshrink_sound. Qed.
+Print Assumptions C08_reshrink_removes_only_unimprovable.
+
+Theorem C08_shrink_unshrink_branch_sound :
+  forall (n : nat) (K0 : nat -> nat -> Q), Ksym K0 ->
+  forall (kind : bool) (eps : Q) (s : qst), Inv_core n K0 true s -> reshrink_due qops eps s = true ->
+  let u := unshrink qops n K0 s in
+  let s' := shrink qops n K0 kind true eps s in
+  forall p : nat, (active s' <= p < n)%nat ->
+  exists b : nat, (b < n)%nat /\ row s' p = row u b /\ cannot_improve_with n (true_grad n K0 u) kind u b.
+Proof. exact shrink_reshrink_sound. Qed.
+Print Assumptions C08_shrink_unshrink_branch_sound.
+
+Theorem C08_removed_pair_step_no_gain :
+  forall (n : nat) (K0 : nat -> nat -> Q), Ksym K0 ->
+  forall (u : qst) (b d : nat) (t : Q), (b < n)%nat -> (d < n)%nat -> 0 <= t ->
+  0 <= Kq K0 u b b + Kq K0 u d d - 2 * Kq K0 u b d ->
+  true_grad n K0 u b - true_grad n K0 u d <= 0 ->
+  objf n (Kq K0 u) (lin u) (two_pt (alpha u) b d t (- t)) <= objf n (Kq K0 u) (lin u) (alpha u).
+Proof. exact pair_step_no_gain. Qed.
+Print Assumptions C08_removed_pair_step_no_gain.
+
+(* seeded change C08-5: with the bounds of the old active subset the composite removes a variable that CAN improve *)
+Theorem C08_reshrink_stale_refuted :
+  exists (n : nat) (K0 : nat -> nat -> Q) (s : qst) (eps : Q),
+    Ksym K0 /\ (forall p q, 0 <= K0 p p + K0 q q - 2 * K0 p q) /\
+    Inv_full n K0 true (lin s) (lo s) (hi s) s /\ reshrink_due qops eps s = true /\
+    let u := unshrink qops n K0 s in
+    let bad := reshrink_stale qops n K0 true s in
+    let good := reshrink qops n K0 true s in
+    exists p b d, (active bad <= p < n)%nat /\ (b < n)%nat /\ (d < n)%nat /\ row bad p = row u b /\
+      fl u b = true /\ fu u b = false /\ fl u d = false /\
+      0 < true_grad n K0 u b - true_grad n K0 u d /\
+      obj n K0 u < objf n (Kq K0 u) (lin u) (two_pt (alpha u) b d (1 # 2) (- (1 # 2))) /\
+      (forall a, (a < n)%nat -> lo u a <= two_pt (alpha u) b d (1 # 2) (- (1 # 2)) a <= hi u a) /\
+      (exists q, (q < active good)%nat /\ perm good q = perm u b).
+Proof. exact reshrink_stale_refuted. Qed.
+Print Assumptions C08_reshrink_stale_refuted.
+
+(* ======================= extension: mutators between two solves of the same object ======================= *)
+
+Theorem C08_setLinear_preserves_inv :
+  forall (n : nat) (K0 : nat -> nat -> Q) (s : qst) (i : nat) (v : Q) (shr : bool),
+  Inv_core n K0 shr s -> Inv_core n K0 shr (set_linear qops s i v).
+Proof. exact set_linear_preserves_inv. Qed.
+Print Assumptions C08_setLinear_preserves_inv.
+
+Theorem C08_setLinear_data :
+  forall (n : nat) (s : qst) (i : nat) (v : Q) (lin0 lo0 hi0 : nat -> Q),
+  (i < n)%nat -> Inv_perm n s -> Inv_data n lin0 lo0 hi0 s ->
+  Inv_perm n (set_linear qops s i v) /\ Inv_data n (updf lin0 (perm s i) v) lo0 hi0 (set_linear qops s i v).
+Proof. exact set_linear_data. Qed.
+Print Assumptions C08_setLinear_data.
+
+Theorem C08_activateVariable_preserves_inv :
+  forall (n : nat) (K0 : nat -> nat -> Q) (shr : bool) (s : qst) (i : nat),
+  Inv_core n K0 shr s -> Inv_core n K0 shr (activate_variable qops s i).
+Proof. exact activate_preserves_inv. Qed.
+Print Assumptions C08_activateVariable_preserves_inv.
+
+Theorem C08_flipCoordinates_preserves_inv :
+  forall (n : nat) (K0 : nat -> nat -> Q) (shr : bool) (s : qst) (i j : nat),
+  (i < active s)%nat -> (j < active s)%nat -> Inv_core n K0 shr s -> Inv_core n K0 shr (flip s i j).
+Proof. exact mflip_preserves_inv. Qed.
+Print Assumptions C08_flipCoordinates_preserves_inv.
+
+Theorem C08_scaleBoxConstraints_same_preserves_inv :
+  forall (n : nat) (K0 : nat -> nat -> Q) (s : qst) (cp cn f v : Q),
+  (forall a : nat, (a < n)%nat -> deact s a = false) -> f == v -> 0 < f ->
+  Inv_core n K0 true s -> Inv_core n K0 true (scale_box qops n s cp cn f v).
+Proof. exact scale_box_same_preserves_inv. Qed.
+Print Assumptions C08_scaleBoxConstraints_same_preserves_inv.
+
+Theorem C08_scaleBoxConstraints_diff_preserves_inv :
+  forall (n : nat) (K0 : nat -> nat -> Q) (s : qst) (cp cn f v : Q),
+  (forall a : nat, (a < n)%nat -> deact s a = false) -> ~ f == v ->
+  (forall a : nat, (a < n)%nat -> lo s a * f <= alpha s a * v <= hi s a * f) ->
+  (forall a : nat, (a < n)%nat -> alpha s a * v == lo s a * f \/ alpha s a * v == hi s a * f -> alpha s a * v == 0) ->
+  active s = n -> Inv_core n K0 true s -> Inv_core n K0 true (scale_box qops n s cp cn f v).
+Proof. exact scale_box_diff_preserves_inv. Qed.
+Print Assumptions C08_scaleBoxConstraints_diff_preserves_inv.
+
+Theorem C08_setInitialSolution_preserves_inv :
+  forall (n : nat) (K0 : nat -> nat -> Q), Ksym K0 ->
+  forall (s : qst) (arg : nat -> Q),
+  (forall a : nat, (a < n)%nat -> perm s a = a) -> (forall a : nat, (a < n)%nat -> deact s a = false) ->
+  (forall a : nat, (a < n)%nat -> lo s a <= arg a <= hi s a) -> active s = n ->
+  Inv_core n K0 true (set_initial qops n K0 s arg) /\
+  (forall a : nat, (a < n)%nat -> alpha (set_initial qops n K0 s arg) a = arg a).
+Proof. exact set_initial_preserves_inv. Qed.
+Print Assumptions C08_setInitialSolution_preserves_inv.
+
+(* C08_every_history extended to histories that contain mutator calls (shrinking on, both problem kinds) *)
+Theorem C08_every_history_with_mutators :
+  forall (n : nat) (K0 : nat -> nat -> Q), Ksym K0 ->
+  forall kind : bool, Kok K0 kind ->
+  forall (hs : list (hop Q)) (s : qst),
+  Inv_core n K0 true s -> wf_hrun n K0 kind s hs -> Inv_core n K0 true (hrun qops n K0 kind true s hs).
+Proof. exact hrun_core. Qed.
+Print Assumptions C08_every_history_with_mutators.
+
+(* a segment of solver operations inside such a history is a history of C08_every_history (objective, sum, ...) *)
+Theorem C08_history_solver_segment :
+  forall (n : nat) (K0 : nat -> nat -> Q) (kind : bool) (ops : list (op Q)) (s : qst),
+  hrun qops n K0 kind true s (map (@HSolver Q) ops) = runQ n K0 kind true s ops.
+Proof. exact hrun_solver. Qed.
+Print Assumptions C08_history_solver_segment.
+
+(* seeded change C08-6 (setLinear reads linear(i) after writing it): the edge-gradient relation breaks *)
+Theorem C08_setLinear_read_after_write_refuted :
+  exists (n : nat) (K0 : nat -> nat -> Q) (s : qst) (i : nat) (v : Q),
+    Ksym K0 /\ Inv_core n K0 true s /\ (i < n)%nat /\
+    Inv_edge n K0 (set_linear qops s i v) /\ ~ Inv_edge n K0 (set_linear_read_after_write qops s i v).
+Proof. exact set_linear_read_after_write_refuted. Qed.
+Print Assumptions C08_setLinear_read_after_write_refuted.
+
+(* latent defect of /repo: setInitialSolution(alpha) on an object whose variables are permuted *)
+Theorem C08_setInitialSolution_permuted_refuted :
+  exists (n : nat) (K0 : nat -> nat -> Q) (s : qst) (arg : nat -> Q),
+    Ksym K0 /\ Inv_core n K0 true s /\ Inv_perm n s /\ active s = n /\
+    (forall a, (a < n)%nat -> deact s a = false) /\
+    (forall a, (a < n)%nat -> lo s a <= arg (perm s a) <= hi s a) /\
+    ~ Inv_grad n K0 (set_initial qops n K0 s arg).
+Proof. exact set_initial_permuted_refuted. Qed.
+Print Assumptions C08_setInitialSolution_permuted_refuted.
